@@ -256,7 +256,17 @@ def oracle_element_mirror(R, tier, seed):
         model = "tube" if it % 2 == 0 else "wingbox"
         kind = ("full", "left")[it % 4 // 2]
         ny = int(rng.choice([3, 5])) if kind == "full" else int(rng.choice([2, 3, 4]))
-        m = gen.rand_mesh(rng, 2, ny, kind, offset=False); mm = mirror_mesh(m)
+        if kind == "full":
+            m = gen.rand_mesh(rng, 2, ny, kind, offset=False)
+        else:
+            # half models: flat swept tapered meshes.  The geometry group's twist component, which is always present, moves the
+            # sections of a wing with dihedral even at zero twist, and with the wrong sense on right-hand halves (recorded
+            # findings F05-Rotate / F06, reported by their own oracles); this oracle is about the stiffness matrices of
+            # geometries that ARE mirror images of each other
+            m = gen.rand_mesh(rng, 2, ny, kind, plain=True, offset=False)
+            yy = np.abs(m[:, :, 1]); b = yy.max()
+            m[:, :, 0] += yy * float(rng.uniform(0.1, 0.6)); m[1, :, 0] -= (m[1, :, 0] - m[0, :, 0]) * 0.4 * yy[1] / b
+        mm = mirror_mesh(m)
         mk = gen.tube_surface if model == "tube" else gen.wingbox_surface
         extra = dict(struct_weight_relief=False, distributed_fuel_weight=False, t_over_c_cp=np.array([0.12, 0.12]), twist_cp=np.zeros(2))
         if model == "tube": extra.update(thickness_cp=np.array([0.02, 0.02, 0.02]))
